@@ -27,7 +27,13 @@ func monitor(evs []Ev) []Problem {
 	popped := map[int]int{}
 	executed := map[int]int{}
 	running := 0
-	closeCalled, closeRet := false, false
+	closeCalled, closeRet, closeRet2 := false, false, false
+	afterClose := func() string {
+		if closeRet2 && !closeRet {
+			return "callback-after-second-close-returned"
+		}
+		return "callback-after-close"
+	}
 	for i, e := range evs {
 		switch e.Kind {
 		case "enq":
@@ -61,8 +67,8 @@ func monitor(evs []Ev) []Problem {
 			if popped[e.ID] > 1 {
 				add("executed-twice", "event %d: id=%d popped twice", i, e.ID)
 			}
-			if closeRet {
-				add("callback-after-close", "event %d: id=%d popped after Close returned", i, e.ID)
+			if closeRet || closeRet2 {
+				add(afterClose(), "event %d: id=%d popped after Close returned", i, e.ID)
 			}
 		case "exec":
 			it := items[e.ID]
@@ -76,8 +82,8 @@ func monitor(evs []Ev) []Problem {
 			if e.Now < it.at-halfMsNs {
 				add("executed-early", "event %d: id=%d scheduled at %d ran at clock %d", i, e.ID, it.at, e.Now)
 			}
-			if closeRet {
-				add("callback-after-close", "event %d: callback for id=%d started after Close returned", i, e.ID)
+			if closeRet || closeRet2 {
+				add(afterClose(), "event %d: callback for id=%d started after a call to Close returned", i, e.ID)
 			}
 			running++
 		case "ret":
@@ -88,6 +94,11 @@ func monitor(evs []Ev) []Problem {
 			closeRet = true
 			if running > 0 {
 				add("close-during-callback", "event %d: Close returned while a callback was running", i)
+			}
+		case "closeret2":
+			closeRet2 = true
+			if running > 0 {
+				add("close-during-callback", "event %d: a second Close returned while a callback was running", i)
 			}
 		case "quiet":
 			// e.ID = number of live loop goroutines, e.Now = clock
